@@ -46,9 +46,18 @@ for l in eps:
     cls=[v for v in vars(m).values() if isinstance(v,type) and issubclass(v,AbstractCountry) and v is not AbstractCountry][0]
     c=cls()
     crow.append((script,c.country_iso_code,c.get_long_term_capital_gain_period(),c.get_default_accounting_method(),sorted(c.get_accounting_methods()),sorted(c.get_report_generators()),c.get_default_generation_language()))
+# generic plugin: the period is the configured LONG_TERM_CAPITAL_GAINS value; probe accepted and rejected values
+import rp2.plugin.country.generic as GEN
+gprobe=[]
+for v in ["0","1","365","366","1000000000","-1","-365","abc","1.5","", " 12 "]:
+    os.environ['LONG_TERM_CAPITAL_GAINS']=v
+    try: gprobe.append((v, str(GEN.Generic().get_long_term_capital_gain_period())))
+    except Exception as e: gprobe.append((v, "rejected"))
+os.environ['LONG_TERM_CAPITAL_GAINS']='123'
 allgens=sorted({g for r in crow for g in r[5]})
 gb='/-- generator plugin name ↦ its last component (file / template base name); string processing is done here so that `decide` can evaluate the tables -/\ndef generatorBases : List (String × String) := '+llist([f'({lstr(g)}, {lstr(g.split(".")[-1])})' for g in allgens])+'\n'
-body='namespace Rp2.Gen\n'+gb+'/-- (script, iso, long-term period, default method, methods, generators, default language); generic probed with LONG_TERM_CAPITAL_GAINS=123 -/\ndef countries : List (String × String × Nat × String × List String × List String × String) :=\n  '+llist([f'({lstr(s)}, {lstr(i)}, {p}, {lstr(dm)}, {llist(map(lstr,ms))}, {llist(map(lstr,gs))}, {lstr(lg)})' for s,i,p,dm,ms,gs,lg in crow])+'\nend Rp2.Gen\n'
+gp='/-- generic country plugin: LONG_TERM_CAPITAL_GAINS value ↦ period in days, or "rejected" -/\ndef genericPeriodProbe : List (String × String) := '+llist([f'({lstr(a)}, {lstr(b)})' for a,b in gprobe])+'\n'
+body='namespace Rp2.Gen\n'+gb+gp+'/-- (script, iso, long-term period, default method, methods, generators, default language); generic probed with LONG_TERM_CAPITAL_GAINS=123 -/\ndef countries : List (String × String × Nat × String × List String × List String × String) :=\n  '+llist([f'({lstr(s)}, {lstr(i)}, {p}, {lstr(dm)}, {llist(map(lstr,ms))}, {llist(map(lstr,gs))}, {lstr(lg)})' for s,i,p,dm,ms,gs,lg in crow])+'\nend Rp2.Gen\n'
 write('Countries.lean',body)
 # ---- Methods (AST)
 def term(n):
